@@ -44,6 +44,10 @@ def main():
         demo_dst = os.path.join(wt, dest, "zz_seed_" + base)
         shutil.copy(demo_src, demo_dst)
         cmd = ["go", "test", "-vet=off", "-count=1"] + targs
+        demo_arch = os.environ.get("SEED_DEMO_GOARCH", "")
+        if demo_arch:
+            # the demonstration needs the 32-bit word size of the production target
+            cmd = ["env", "GOARCH=" + demo_arch] + cmd
         r1 = sh(cmd, cwd=wt)
         print("demo on clean tree:", "PASS" if r1.returncode == 0 else "FAIL")
         if r1.returncode != 0:
@@ -78,7 +82,7 @@ def main():
             "property": prop,
             "source": "independent sub-agent given only the property text and a scratch worktree",
             "needs": "",
-            "demo": {"file": os.path.basename(demo_rel), "copy_to": dest, "command": "go test -vet=off -count=1 " + " ".join(targs)},
+            "demo": {"file": os.path.basename(demo_rel), "copy_to": dest, "command": ("GOARCH=%s " % demo_arch if demo_arch else "") + "go test -vet=off -count=1 " + " ".join(targs)},
             "confirmed": {
                 "demo_passes_on_clean_tree": True,
                 "existing_suite_passes_with_patch": True,
